@@ -283,9 +283,9 @@ def cases(tier, seed, per_family=None):
     if per_family is None:
         per_family = {"quick": {"plain": 400, "min": 150, "awkward": 400, "above": 40, "digits": 30, "genegroup": 24, "noname": 24,
                                 "nocharge": 24, "precision": 100, "emptyreaction": 16, "noobjective": 16},
-                      "thorough": {"plain": 4000, "min": 1500, "awkward": 4000, "above": 300, "digits": 200, "genegroup": 120,
-                                   "noname": 120, "nocharge": 120, "precision": 1000, "emptyreaction": 60,
-                                   "noobjective": 60}}[tier]
+                      "thorough": {"plain": 2000, "min": 750, "awkward": 2000, "above": 150, "digits": 100, "genegroup": 60,
+                                   "noname": 60, "nocharge": 60, "precision": 500, "emptyreaction": 30,
+                                   "noobjective": 30}}[tier]
     out = []
     for fam, n in per_family.items():
         out.extend((fam, seed, i) for i in range(n))
